@@ -230,7 +230,7 @@ func scribble[T constraints.Float](p poly.Polygon[T]) {
 	}
 }
 
-func runT[T constraints.Float](op string, t *tokens) string {
+func runT[T constraints.Float](op string, t *tokens, margin float64) string {
 	seen := map[string]poly.Contour[T]{}
 	t.expect("A")
 	startA := t.i
@@ -263,7 +263,71 @@ func runT[T constraints.Float](op string, t *tokens) string {
 	if "R "+fmtPoly(r) != out {
 		return "result-aliases-operand"
 	}
-	return out
+	return out + resultPoints(r, margin)
+}
+
+// resultPoints: candidate sample points taken from the RESULT itself (points mode): for every result contour the
+// average of its vertices and of three consecutive vertices, and the midpoints of its edges pushed to both sides by
+// 1.5 and by 4 margins — so that area the result has on its own (where neither operand suggested a sample point) is
+// judged too.  They are only candidates: the Lean oracle applies the exact margin test and judges them.  At most
+// about 80 points per call; printed as exact float64 bit patterns after ` X <count>`.
+func resultPoints[T constraints.Float](r poly.Polygon[T], margin float64) string {
+	if margin <= 0 {
+		return ""
+	}
+	edges := 0
+	for _, c := range r {
+		edges += len(c)
+	}
+	if edges == 0 {
+		return ""
+	}
+	stride := edges/16 + 1
+	var pts []float64
+	add := func(x, y float64) {
+		if !math.IsNaN(x) && !math.IsInf(x, 0) && !math.IsNaN(y) && !math.IsInf(y, 0) {
+			pts = append(pts, x, y)
+		}
+	}
+	k := 0
+	for _, c := range r {
+		n := len(c)
+		if n < 3 {
+			continue
+		}
+		var sx, sy float64
+		for _, v := range c {
+			sx += float64(v.X)
+			sy += float64(v.Y)
+		}
+		if len(pts) < 40 {
+			add(sx/float64(n), sy/float64(n))
+		}
+		for i := 0; i < n; i++ {
+			k++
+			if k%stride != 0 {
+				continue
+			}
+			a, b, d := c[i], c[(i+1)%n], c[(i+2)%n]
+			ax, ay, bx, by := float64(a.X), float64(a.Y), float64(b.X), float64(b.Y)
+			add((ax+bx+float64(d.X))/3, (ay+by+float64(d.Y))/3)
+			dx, dy := bx-ax, by-ay
+			l := math.Hypot(dx, dy)
+			if l == 0 {
+				continue
+			}
+			mx, my := (ax+bx)/2, (ay+by)/2
+			for _, f := range []float64{1.5, -1.5, 4, -4} {
+				add(mx-dy/l*margin*f, my+dx/l*margin*f)
+			}
+		}
+	}
+	var sb strings.Builder
+	sb.WriteString(" X " + strconv.Itoa(len(pts)/2))
+	for _, v := range pts {
+		sb.WriteString(" h" + pad(strconv.FormatUint(math.Float64bits(v), 16), 16))
+	}
+	return sb.String()
 }
 
 func sameValues[T constraints.Float](p, q poly.Polygon[T]) bool {
@@ -393,6 +457,7 @@ func runLine(line string) string {
 		}
 		return "bad-op"
 	}
+	margin := 0.0
 	switch t.next() {
 	case "L":
 		t.count(1 << 20)
@@ -404,7 +469,7 @@ func runLine(line string) string {
 			}
 		}
 	case "P":
-		parseNum(t.next())
+		margin = parseNum(t.next())
 		k := t.count(1 << 20)
 		for i := 0; i < 2*k; i++ {
 			parseNum(t.next())
@@ -414,9 +479,9 @@ func runLine(line string) string {
 	}
 	switch ft {
 	case "f32":
-		return runT[float32](op, t)
+		return runT[float32](op, t, margin)
 	case "f64":
-		return runT[float64](op, t)
+		return runT[float64](op, t, margin)
 	}
 	return "bad-op"
 }
